@@ -8,6 +8,9 @@ CHECKS = {
  'C02': dict(cat='model_checking', design='5/C02', technique='TLA+ pushdown spec of RFC 8259 (JsonText), equivalence with a second grammar-directed definition model-checked by TLC, TLC-enumerated cases with predicted verdict/value replayed through the parser entry points',
    text='TLC enumerates every viable prefix of JSON texts over a class-complete character alphabet and every short token sequence; the spec (written from RFC 8259, cross-checked inside TLC against a second recursive-descent definition) predicts accept/reject and the value; each case is replayed through basic_json::parse, ojson, json_reader+decoder, json_parser and stream parse under all comment/trailing-comma/nesting-limit options.',
    note='Bounded-exhaustive, not unbounded: texts up to the stated lengths. Fraction/exponent literal values are compared with glibc strtod. Unpaired-surrogate escapes and comments after the top-level value (allow_comments on) are declared dont-care.'),
+ 'C03': dict(cat='model_checking', design='5/C03', technique='TLA+ spec (JsonText) predicts verdict and event sequence; TLC-enumerated texts delivered in every chunk composition / source / observer and compared with the contiguous, spec-checked observation',
+   text='Every TLC-enumerated text (valid, invalid, every strict prefix) is delivered contiguously (events compared with the spec prediction) and then in all 2^(n-1) chunk compositions to the push parser, through stream/iterator sources with every buffer size, and to cursor, filtered cursor, read_to and staj iterators; events on success and error code on failure must equal the contiguous observation.',
+   note='JSON text only; bounded-exhaustive in text length (5/6 characters, 3/4 tokens). Error codes are compared differentially only. Inputs with no value at all are not compared for cursors.'),
 }
 NA = {}
 
